@@ -196,6 +196,7 @@ void finishRegion(State& st) {
 
 void configure(int threads, int policy, uint64_t seed) { cfgThreads = threads; cfgPolicy = policy; cfgSeed = seed; }
 int configuredThreads() { return cfgThreads; }
+void runAsWorker(int worker, const std::function<void()>& f) { const long saved = tlsWorker; tlsWorker = worker; f(); tlsWorker = saved; }
 const Log& lastLog() { return S().last; }
 long currentTask() { return tlsTask; }
 long currentWorker() { return tlsWorker; }
